@@ -197,6 +197,10 @@ pub struct Client {
     pub read_total: usize,
     /// tags that must have been yielded so far, given the reads the server performed
     pub exp_yield: Vec<String>,
+    /// the corresponding requests as the reference model sees them (all public fields)
+    pub exp_reqs: Vec<crate::model::ReqObs>,
+    /// how many of the yielded requests have been compared field by field
+    pub compared: usize,
     /// number of 400 replies the server must have queued so far
     pub exp_400: usize,
     /// for each expected 400: Some((limit, declared)) when it answers a payload-limit violation
@@ -490,6 +494,8 @@ impl ServerSim {
                                     restart_at: 0,
                                     read_total: 0,
                                     exp_yield: vec![],
+                                    exp_reqs: vec![],
+                                    compared: 0,
                                     exp_400: 0,
                                     exp_400_kinds: vec![],
                                     rejected: vec![],
@@ -600,9 +606,7 @@ impl ServerSim {
                 if self.outstanding.is_empty() {
                     false
                 } else {
-                    while !self.outstanding.is_empty() {
-                        self.respond(0, *code, *pad, st)?;
-                    }
+                    self.respond_batch(*code, *pad, st)?;
                     true
                 }
             }
@@ -885,6 +889,50 @@ impl ServerSim {
         Ok(())
     }
 
+    /// answer everything outstanding with ONE call of the batch API, in yield order
+    fn respond_batch(&mut self, code: u16, pad: usize, st: &mut Stats) -> Result<(), Violation> {
+        let mut batch = Vec::new();
+        let mut records = Vec::new();
+        for (tag, cid, req) in self.outstanding.drain(..) {
+            let version = match req.inner().http_version() {
+                micro_http::Version::Http10 => 0,
+                micro_http::Version::Http11 => 1,
+            };
+            let (resp, bytes) = app_response(version, &tag, code, pad);
+            let mut slot = Some(resp);
+            batch.push(req.process(|_r| slot.take().unwrap()));
+            records.push((tag, cid, bytes));
+        }
+        world::with(|w| w.take_log());
+        let r = catch_unwind(AssertUnwindSafe(|| self.server.as_mut().unwrap().enqueue_responses(batch)));
+        st.lib_calls += 1;
+        self.sig.u(71);
+        st.probe("batch_enqueue_responses");
+        match r {
+            Ok(Ok(())) => {}
+            Ok(Err(e)) => {
+                if self.flags.poll_must_succeed {
+                    return Err(self.v("respond-err", format!("enqueue_responses() failed: {}", e)));
+                }
+            }
+            Err(p) => return Err(self.v("panic", format!("enqueue_responses() panicked: {}", panic_msg(p)))),
+        }
+        let log = world::with(|w| w.take_log());
+        self.account_log(&log, st)?;
+        for (tag, cid, bytes) in records {
+            if let Some(cl) = self.clients.get_mut(&cid) {
+                if cl.closed {
+                    self.late_respond_after_close += 1;
+                    st.probe("respond_after_client_closed");
+                    st.fault("F-late:respond_after_close");
+                }
+                cl.responded.push((tag, bytes.clone()));
+                cl.expected_out.extend(bytes);
+            }
+        }
+        Ok(())
+    }
+
     fn flush(&mut self, st: &mut Stats) -> Result<(), Violation> {
         world::with(|w| w.take_log());
         let before: Vec<(usize, usize, usize)> = self
@@ -942,6 +990,7 @@ impl ServerSim {
         let m = model_stream(&c.sent[c.restart_at..b], c.limit_at_accept, WINDOW);
         let lo = a - c.restart_at;
         let mut tags = Vec::new();
+        let mut reqs = Vec::new();
         let mut err = false;
         let mut kind = None;
         for (at, e) in &m.events {
@@ -949,7 +998,10 @@ impl ServerSim {
                 continue;
             }
             match e {
-                MEvent::Request(r) => tags.push(tag_of_path(&r.abs_path).unwrap_or_else(|| "untagged".to_string())),
+                MEvent::Request(r) => {
+                    tags.push(tag_of_path(&r.abs_path).unwrap_or_else(|| "untagged".to_string()));
+                    reqs.push(r.clone());
+                }
                 MEvent::Error(k) => {
                     err = true;
                     if let crate::model::EK::SizeLimit(l, n) = k {
@@ -969,6 +1021,7 @@ impl ServerSim {
                 self.yield_after_error += 1;
             }
             c.exp_yield.extend(tags);
+            c.exp_reqs.extend(reqs);
         }
     }
 
@@ -1172,8 +1225,20 @@ impl ServerSim {
                 }
             };
             let cid = tag_client(&tag).unwrap_or(usize::MAX);
+            let lib_obs = crate::obs::obs_of(req.inner());
             if let Some(cl) = self.clients.get_mut(&cid) {
                 cl.yielded.push(tag.clone());
+                // the yielded request must carry exactly the bytes the client sent (all public fields)
+                let k = cl.yielded.len() - 1;
+                let tagged: Vec<&crate::model::ReqObs> =
+                    cl.exp_yield.iter().zip(cl.exp_reqs.iter()).filter(|(t, _)| *t != "untagged").map(|(_, r)| r).collect();
+                if let Some(want) = tagged.get(k) {
+                    if let Err(d) = crate::obs::matches_model(want, &lib_obs) {
+                        let msg = format!("client {}: request {} was yielded with altered content: {}", cid, tag, d);
+                        return Err(self.v("yielded-request-fields", msg));
+                    }
+                    cl.compared += 1;
+                }
             }
             if self.outstanding.iter().any(|o| o.1 != cid) {
                 self.overlapping = true;
